@@ -273,6 +273,35 @@ def ctx_table():
     def c_fstring(s, u, k):
         return ['t = f"{%s(%s)}"' % (u, s.src())], [S("SKAssign", E("KFString", call(u, s.coq())))]
 
+    # f-strings with a second interpolation whose nested identifiers sit at the same RELATIVE offsets as the helper's and the
+    # newtype's callee identifiers (interpolations are parsed from their own substring; the checker's identifier-kind and type
+    # maps are keyed by span).  Added after seed C17-4.
+    def fs_collider(s, u):
+        site = "%s(%s)" % (u, s.src())
+        off = site.find(s.nt.name + "(", len(u))
+        if off < 2:
+            return None
+        pad, vv = "p" * (off - 1), "v" * len(s.nt.name)
+        return site, pad, vv
+
+    def c_fstring_then_collider(s, u, k):
+        c = fs_collider(s, u)
+        if c is None:
+            return c_fstring(s, u, k)
+        site, pad, vv = c
+        return ["%s = 1" % pad, "%s = 2" % vv, 't = f"{%s} {%s+%s}"' % (site, pad, vv)], \
+               [S("SKAssign", "ELit 1"), S("SKAssign", "ELit 2"),
+                S("SKAssign", E("KFString", call(u, s.coq()), E("KBinary", "EIdent \"%s\"" % pad, "EIdent \"%s\"" % vv)))]
+
+    def c_collider_then_fstring(s, u, k):
+        c = fs_collider(s, u)
+        if c is None:
+            return c_fstring(s, u, k)
+        site, pad, vv = c
+        return ["%s = 1" % pad, "%s = 2" % vv, 't = f"{%s+%s} {%s}"' % (pad, vv, site)], \
+               [S("SKAssign", "ELit 1"), S("SKAssign", "ELit 2"),
+                S("SKAssign", E("KFString", E("KBinary", "EIdent \"%s\"" % pad, "EIdent \"%s\"" % vv), call(u, s.coq())))]
+
     def c_ifcond(s, u, k):
         return ["if %s(%s) > 0:" % (u, s.src()), "    pass"], \
                [S("SKIf", E("KBinary", call(u, s.coq()), "ELit 0"), blk(S("SKExpr")))]
@@ -349,6 +378,7 @@ def ctx_table():
     return [("let", c_let, True), ("typed-let", c_typed, True), ("mut-let", c_mut, True), ("argument", c_arg, True),
             ("list-element", c_list, True), ("tuple-element", c_tuple, True), ("dict-value", c_dict, True),
             ("parenthesised", c_paren, True), ("binary-operand", c_binary, True), ("fstring", c_fstring, True),
+            ("fstring-then-collider", c_fstring_then_collider, True), ("collider-then-fstring", c_collider_then_fstring, True),
             ("if-condition", c_ifcond, True), ("if-body", c_ifbody, True), ("elif-body", c_elifbody, True),
             ("else-body", c_elsebody, True), ("while-body", c_while, True), ("for-iterable", c_foriter, True),
             ("for-body", c_forbody, True), ("match-arm", c_match, True), ("closure-body", c_closure, True),
